@@ -210,6 +210,25 @@ func CheckConc(e *Env) (int, error) {
 	}
 
 	a := newAgg()
+	// a caller parked in its own entropy reader (simulated clock) must not
+	// hold up other callers: the stall world's peer mode
+	stallBin, stallState := e.buildStall()
+	if stallBin != "" {
+		n := 1600
+		if e.Tier == "thorough" {
+			n = 25600
+		}
+		sj := SplitRuns(stallBin, simStall.Name, "stall", prop, 0, n, n/16)
+		e.RunJobs(sj)
+		for _, j := range sj {
+			if j.Err != nil || (j.ExitCode != 0 && !(j.ExitCode == 3 && len(j.Results) > 0)) {
+				return 2, harnessErr("stall job from=%d: err=%v exit=%d\n%s", j.From, j.Err, j.ExitCode, j.Stderr)
+			}
+			for _, r := range j.Results {
+				a.add(prop, r)
+			}
+		}
+	}
 	preemptSites := map[int]bool{}
 	hitSites := make([]byte, (sites+8)/8+1)
 	policies := map[string]int{}
@@ -404,6 +423,9 @@ func CheckConc(e *Env) (int, error) {
 	}
 
 	out, err := e.conclude(prop, a, func(r *kernel.Result) (string, string) {
+		if r.World == "stall" {
+			return stallBin, simStall.Name
+		}
 		v := strings.TrimSuffix(r.Variant, "-race")
 		if strings.HasSuffix(r.Variant, "-race") {
 			return bins.race[v], r.Variant
@@ -461,6 +483,7 @@ func CheckConc(e *Env) (int, error) {
 		"runs_by_variant":                                 a.Variants,
 		"runs_per_hour":                                   int(float64(a.Runs) / time.Since(e.Start).Hours()),
 		"data_race_reports":                               len(races),
+		"stalled_peer_world":                              map[string]any{"state": stallState, "runs": a.ByWorld["stall"], "simulated_clock_ms": a.StallMS, "what": "inside a testing/synctest bubble (go1.26.8) caller A signs with an entropy reader that parks it for 1000 h of simulated time; while it is parked caller B (same or another key) signs with its own reader / signs deterministically / verifies / derives a shared secret / imports a key and must return, within one simulated second, what it returns when run alone. A B that is blocked on a lock held by the parked A is found by a real-time watchdog (10 s)"},
 		"race_oracle_long_stall_canary":                   e.staleCanaryNote,
 		"race_oracle_canary":                              "before the batch: two simulated callers writing one variable under the scheduler were reported by the race detector, two callers writing private variables were not",
 		"real_vs_stub":                                    "real: all of /repo with statement-level yield points inserted by go/ast through a build overlay (fiat arithmetic and the assembly run as atomic instructions), Go crypto, x/crypto, tuplehash, real goroutines, the Go race detector. stub: entropy devices; the scheduler replaces the Go scheduler's choice of who runs. model: per-call solo execution on an independent clone.",
